@@ -1,9 +1,20 @@
 #!/usr/bin/env python3
 """Runs the checks against every seeded change: apply patch to /repo, run ./check for the property the seed targets
-(and any extra properties given), restore /repo.  Records the outcome in seeded/<id>/meta.json (detected_by)."""
-import os, sys, json, subprocess, glob
+(and any extra properties given), restore /repo.  Records the outcome in seeded/<id>/meta.json (detected_by).
+With --wt the patch is applied in a scratch worktree of /repo's HEAD (VERIF_REPO points the checks at it) so that /repo
+itself stays untouched while other work is going on; the evidence files are restored afterwards in both modes (evidence
+is committed only from runs on the unchanged tree)."""
+import os, sys, json, subprocess, glob, shutil
 V = '/verif'
-only = sys.argv[1:] 
+args = sys.argv[1:]
+WT = None
+if '--wt' in args:
+    args.remove('--wt')
+    WT = '/tmp/seedrun_wt.%d' % os.getpid()
+    subprocess.run(['git', '-C', '/repo', 'worktree', 'add', '-q', '--detach', WT, 'HEAD'], check=True)
+    os.environ['VERIF_REPO'] = WT
+RP = WT or '/repo'
+only = args
 rows = []
 for d in sorted(glob.glob(V + '/seeded/*/')):
     sid = os.path.basename(d.rstrip('/'))
@@ -11,12 +22,13 @@ for d in sorted(glob.glob(V + '/seeded/*/')):
         continue
     meta = json.load(open(d + 'meta.json'))
     prop = meta['property']
-    assert subprocess.run(['git', '-C', '/repo', 'status', '--porcelain', '--untracked-files=no'], capture_output=True, text=True).stdout.strip() == '', '/repo dirty'
-    ap = subprocess.run(['git', '-C', '/repo', 'apply', d + 'patch.diff'], capture_output=True, text=True)
+    assert subprocess.run(['git', '-C', RP, 'status', '--porcelain', '--untracked-files=no'], capture_output=True, text=True).stdout.strip() == '', '/repo dirty'
+    ap = subprocess.run(['git', '-C', RP, 'apply', d + 'patch.diff'], capture_output=True, text=True)
     if ap.returncode != 0:
         rows.append((sid, 'patch does not apply', '')); continue
     try:
         props = [prop] + meta.get('also_check', [])
+        saved = {p: (open(V + '/evidence/%s.json' % p).read() if os.path.exists(V + '/evidence/%s.json' % p) else None) for p in props}
         hits, outs = [], {}
         for p in props:
             r = subprocess.run([V + '/check', p], capture_output=True, text=True, cwd=V)
@@ -25,9 +37,14 @@ for d in sorted(glob.glob(V + '/seeded/*/')):
             if r.returncode == 1:
                 hits.append(p)
     finally:
-        subprocess.run(['git', '-C', '/repo', 'checkout', '--', '.'])
+        subprocess.run(['git', '-C', RP, 'checkout', '--', '.'])
+        for p, b in saved.items():
+            if b is not None:
+                open(V + '/evidence/%s.json' % p, 'w').write(b)
     meta['detected_by'] = dict(checks=hits, detail=outs)
     json.dump(meta, open(d + 'meta.json', 'w'), indent=1)
     rows.append((sid, 'DETECTED by ' + ','.join(hits) if hits else 'missed', '; '.join(x for p in outs for x in outs[p]['lines'][1:2])))
+if WT:
+    subprocess.run(['git', '-C', '/repo', 'worktree', 'remove', '--force', WT])
 for r in rows:
     print('%-7s %-22s %s' % r)
